@@ -34,11 +34,12 @@ type SimDB struct {
 	Counting   bool // only count calls while true (during the operation under test)
 
 	// crash plan: after the CrashAtCommit-th successful commit the instance dies.
-	CrashAtCommit int
-	Closed        bool
-	DiskCommit    bool // the addressed commit fails through a storage write error of goleveldb instead of at this layer
-	DiskFaults    int
-	FirstSite     string // wallet functions on the stack of the first failed call
+	CrashAtCommit  int
+	Closed         bool
+	PostCommitGate bool // followers park once more right after a successful commit (C17)
+	DiskCommit     bool // the addressed commit fails through a storage write error of goleveldb instead of at this layer
+	DiskFaults     int
+	FirstSite      string // wallet functions on the stack of the first failed call
 	// OnCommit is called after every successful commit (invariant monitors).
 	OnCommit func(n int)
 }
@@ -305,6 +306,11 @@ func (t *simTx) Commit() error {
 		}
 	}
 	d.S.dbLockRelease(t.g)
+	if err == nil && !crash && d.PostCommitGate && t.g != nil && (t.g.Role == RoleHandler || t.g.Role == RoleWorker) {
+		// the commit is in the store, the follower has not yet brought its
+		// in-memory copies (tip, pending set) up to date: a window of its own
+		d.S.Gate("db.committed")
+	}
 	if crash {
 		d.S.mu.Lock()
 		d.S.CrashRequested = true
